@@ -1,6 +1,7 @@
 package checks
 
 import (
+	"bytes"
 	"encoding/json"
 	"fmt"
 	"sort"
@@ -651,24 +652,43 @@ func c13OneEdit(x *engine.Ctx, baseIdx int, base c13Base, h0 string, w0 *simfs.W
 	if h1 == h0 {
 		x.ViolationCase("C13/hash-blind "+feature, fmt.Sprintf("base %q, edit %v changes the certificate model\n  before: %s\n  after:  %s\nbut the stored hash stays %s", base.Name, names, c13Model(base), c13Model(eb), h0), replay)
 	}
-	// in place: after the edit a -c run regenerates the entity
-	w := w0.Clone()
-	w.Put(eb.Cfg.Path, RenderCfg(eb.Cfg.Path, eb.Cfg.Tree()))
-	if eb.Prof != nil {
-		w.Put(eb.Prof.Path, RenderCfg(eb.Prof.Path, eb.Prof.Tree()))
-	}
-	res := drive.Run(w, drive.Changed, nil)
-	x.Transition(1)
-	if res.Panic != "" {
-		x.ViolationCase("C13/panic/"+res.PanicSite, res.Panic, replay)
-		return true
-	}
-	if res.Err() != nil {
-		x.Outcome("edited configuration fails in place")
-		return true
-	}
-	if !res.Planned(AliasOf(eb.Cfg)) {
-		x.ViolationCase("C13/not-regenerated "+feature, fmt.Sprintf("base %q, edit %v: a generate-changed run does not regenerate the entity (plan %v)", base.Name, names, res.PlanAliases()), replay)
+	// in place: after the edit a -c run regenerates the entity. Only the files whose text changed are
+	// written (a profile-only edit leaves the certificate's file older than its artifact), once with a
+	// new modification time and once with one older than every artifact (a prepared variant moved in
+	// with its time stamp kept): change detection is by content, not by time.
+	for _, old := range []bool{false, true} {
+		w := w0.Clone()
+		put := func(path string, data []byte) {
+			if f, ok := w.Files[path]; ok && bytes.Equal(f.Data, data) {
+				return
+			}
+			if old {
+				w.PutAt(path, data, 1)
+			} else {
+				w.Put(path, data)
+			}
+		}
+		put(eb.Cfg.Path, RenderCfg(eb.Cfg.Path, eb.Cfg.Tree()))
+		if eb.Prof != nil {
+			put(eb.Prof.Path, RenderCfg(eb.Prof.Path, eb.Prof.Tree()))
+		}
+		res := drive.Run(w, drive.Changed, nil)
+		x.Transition(1)
+		if res.Panic != "" {
+			x.ViolationCase("C13/panic/"+res.PanicSite, res.Panic, replay)
+			return true
+		}
+		if res.Err() != nil {
+			x.Outcome("edited configuration fails in place")
+			return true
+		}
+		if !res.Planned(AliasOf(eb.Cfg)) {
+			cls := "C13/not-regenerated " + feature
+			if old {
+				cls += " edited-file-keeps-an-old-time"
+			}
+			x.ViolationCase(cls, fmt.Sprintf("base %q, edit %v: a generate-changed run does not regenerate the entity (plan %v)", base.Name, names, res.PlanAliases()), replay)
+		}
 	}
 	x.Outcome("relevant edit")
 	return true
